@@ -182,6 +182,10 @@ def run_pipeline(case):
         np.random.choice = orig
     if status != 'ok':
         return Result(False, ['pipeline', 'skipped:rejected'])
+    if not seen:
+        # the lists were not drawn through numpy.random.choice at all: nothing to observe at
+        # this seam (the statistical kind looks at the written lists instead)
+        return Result(False, ['pipeline', 'skipped:no_draws_observed'])
     if len(seen) != v['n1'] * v['numinst']:
         raise Violation('pipeline_draws', '%d preference lists requested, %d weighted draws '
                         'without replacement observed' % (v['n1'] * v['numinst'], len(seen)))
